@@ -201,10 +201,33 @@ fn digest<T: std::fmt::Debug>(x: &T) -> String {
     format!("{x:?}")
 }
 
+thread_local! {
+    static PARSE_SHELL: std::cell::RefCell<Option<Sh>> = const { std::cell::RefCell::new(None) };
+}
+
+/// `Shell::parse_string` (the entry point behind -c, eval, stdin and $( ) bodies) under the shell options named by `bits`.
+fn shell_parse(text: &str, bits: u64) -> String {
+    PARSE_SHELL.with(|cell| {
+        let mut slot = cell.borrow_mut();
+        if slot.is_none() {
+            let rt = new_runtime();
+            *slot = Some(rt.block_on(new_shell()));
+        }
+        let shell = slot.as_mut().expect("shell");
+        shell.options_mut().extended_globbing = bits & 1 != 0;
+        shell.options_mut().posix_mode = bits & 2 != 0;
+        shell.options_mut().sh_mode = bits & 4 != 0;
+        let r = digest(&shell.parse_string(text.to_string()));
+        let c = format!("{}", brush_interactive::verif_needs_more_input(shell, text));
+        format!("{r}|needs_more={c}")
+    })
+}
+
 /// Results of every memoised parsing entry point for (text, option bits), as comparable strings.
 fn parse_all(text: &str, bits: u64) -> Vec<String> {
     let o = opts(bits);
     let mut v = vec![];
+    v.push(shell_parse(text, bits & 7));
     v.push(digest(&brush_parser::tokenize_str_with_options(
         text,
         &brush_parser::TokenizerOptions {
